@@ -24,6 +24,7 @@ RULE = ('one evaluation = one seeded single-client history (30-200 calls) of wri
         '{0,1,2,10}, on Cache and (per shard) on FanoutCache; after every call the physically removed rows are compared with what '
         'the policy permits; non-trivial = at least one size eviction or expired cull was observed; distinct = SHA-256 of '
         '(configuration, program)')
+RULE += ' ' + 'cull_limit also takes the values 12 and 25.'
 ASSUMPTIONS = ['"reached the size limit" is decided black-box: volume() before the write - size of the item it replaces + size of the new value + 8 database pages of slack >= size_limit',
                'policy keys (store time, access time, access count) are maintained by the model from the virtual clock readings; ties are accepted in any order']
 PROBES = ('evictions', 'cull_expired', 'cull_policy', 'at_limit_writes', 'fanout_runs')
